@@ -70,21 +70,32 @@ def _lib():
 
 
 def ast_rules():
-    path = os.path.join(core.REPO, "ctparse", "time", "rules.py")
-    with open(path, encoding="utf-8") as fd:
-        tree = ast.parse(fd.read())
+    """(name, first decorator line, argument kinds, file) of every function decorated with rule(...) in the library's
+    source - the rule module and whatever modules it is split into"""
     out = []
-    for node in ast.walk(tree):
-        if isinstance(node, ast.FunctionDef):
-            for d in node.decorator_list:
-                if isinstance(d, ast.Call) and getattr(d.func, "id", None) == "rule":
-                    kinds = []
-                    for a in d.args:
-                        if isinstance(a, ast.Call) and getattr(a.func, "id", None) in ("predicate", "dimension"):
-                            kinds.append("pred")
-                        else:
-                            kinds.append("pattern")
-                    out.append((node.name, min(x.lineno for x in node.decorator_list), kinds))
+    root = os.path.join(core.REPO, "ctparse")
+    for dirpath, dirs, files in sorted(os.walk(root)):
+        dirs[:] = sorted(d for d in dirs if d != "__pycache__")
+        for fn in sorted(files):
+            if not fn.endswith(".py"):
+                continue
+            path = os.path.join(dirpath, fn)
+            with open(path, encoding="utf-8") as fd:
+                try:
+                    tree = ast.parse(fd.read())
+                except SyntaxError:
+                    continue
+            for node in ast.walk(tree):
+                if isinstance(node, ast.FunctionDef):
+                    for d in node.decorator_list:
+                        if isinstance(d, ast.Call) and getattr(d.func, "id", getattr(d.func, "attr", None)) == "rule":
+                            kinds = []
+                            for a in d.args:
+                                if isinstance(a, ast.Call) and getattr(a.func, "id", getattr(a.func, "attr", None)) in ("predicate", "dimension"):
+                                    kinds.append("pred")
+                                else:
+                                    kinds.append("pattern")
+                            out.append((node.name, min(x.lineno for x in node.decorator_list), kinds, os.path.relpath(path, core.REPO)))
     return out
 
 
@@ -113,7 +124,7 @@ def structural(acc):
     R, T = _lib()
     rules = R.rules
     A = ast_rules()
-    names = [n for n, _, _ in A]
+    names = [n for n, _, _, _ in A]
 
     def ob(kind, obj, ok, detail=""):
         acc.case((kind, obj), nontrivial=True, cls="structural:" + kind, sample={"check": kind, "object": obj})
@@ -121,8 +132,8 @@ def structural(acc):
             acc.fail("structural:" + kind, {"check": kind, "object": obj}, detail)
 
     dup = sorted({n for n in names if names.count(n) > 1})
-    ob("rule-names-unique-in-source", "rules.py", not dup, "defined more than once: {}".format(dup))
-    for n, line, kinds in A:
+    ob("rule-names-unique-in-source", "ctparse/**/*.py", not dup, "defined more than once: {}".format(dup))
+    for n, line, kinds, srcfile in A:
         ok = n in rules
         ob("defined-rule-is-registered", n, ok, "rule {} (line {}) not in registry".format(n, line))
         if not ok:
@@ -134,8 +145,9 @@ def structural(acc):
             if f is None:
                 acc.notes["wrapped-function-not-introspectable(obligation skipped)"] += 1
             else:
-                ob("registry-entry-wraps-this-definition", n, f.__code__.co_firstlineno == line,
-                   "registry entry for {} does not wrap the function defined at line {}".format(n, line))
+                ob("registry-entry-wraps-this-definition", n,
+                   f.__code__.co_firstlineno == line and os.path.realpath(f.__code__.co_filename) == os.path.realpath(os.path.join(core.REPO, srcfile)),
+                   "registry entry for {} does not wrap the function defined at {} line {}".format(n, srcfile, line))
         regk = ["pattern" if getattr(p, "__name__", "") == "_regex_match" else "pred" for p in pats]
         ob("argument-kinds-match-source", n, regk == kinds, "source {} registry {}".format(kinds, regk))
         adj = any(a == "pattern" and b == "pattern" for a, b in zip(kinds, kinds[1:])) or \
@@ -147,7 +159,7 @@ def structural(acc):
                 ob("rule-pattern-id-registered", "{}:{}".format(n, i), i in R._regex and i in R._regex_str,
                    "rule {} refers to pattern id {} which is not registered".format(n, i))
     for n in rules:
-        ob("registered-rule-is-defined", n, n in names, "registry has {} which rules.py does not define".format(n))
+        ob("registered-rule-is-defined", n, n in names, "registry has {} which no module of the library defines with @rule".format(n))
     # pattern tables
     ob("regex-tables-same-ids", "_regex/_regex_str", set(R._regex) == set(R._regex_str),
        "{} vs {}".format(sorted(R._regex), sorted(R._regex_str)))
